@@ -20,6 +20,9 @@ from vfw import build, core, kernels  # noqa: E402
 
 build.load_catii(os.environ.get("VFW_FUZZ_VARIANT", "asanfuzz"))
 rec = core.Rec()
+CALLS = [0]
+if os.environ.get("VFW_MARKER"):
+    rec.marker = open(os.environ["VFW_MARKER"], "w")
 TOP = 2 ** 32 - 1
 
 
@@ -56,14 +59,16 @@ def one_input(data):
         case = {"op": "many", "arrays": [decode_array(fdp, anchor) for _ in range(k)]}
     rec.begin(case)
     try:
-        kernels.check_any(case, rec, "c08", enum=False)
+        kernels.check_any(case, rec, os.environ.get("VFW_FUZZ_MODE", "c08"), enum=False)
     except core.Violation as v:
         with open(VIOL, "w") as f:
             json.dump({"case": case, "message": str(v), "sig": v.sig}, f)
         raise
-    if rec.evaluations % 2000 == 0:
-        with open(STATS, "w") as f:
+    CALLS[0] += 1
+    if CALLS[0] % 500 == 0:
+        with open(STATS + ".tmp", "w") as f:
             json.dump(rec.export(), f)
+        os.replace(STATS + ".tmp", STATS)
 
 
 def main():
